@@ -241,7 +241,7 @@ def main():
                 info = (open(os.path.join(d, "notes.md")).read().strip().split("\n")[0][:200], "see notes.md")
             meta = {
                 "id": sid,
-                "property_targeted": XPROP.get(sid, sid.split("-")[0].rstrip("s") if sid.split("-")[0].endswith("s") else sid.split("-")[0]),
+                "property_targeted": XPROP.get(sid, (__import__("re").match(r"C\d+", sid).group(0) if __import__("re").match(r"C\d+", sid) else sid.split("-")[0])),
                 "change": info[0],
                 "needs_to_manifest": info[1],
                 "kind": "behaviour-preserving refactoring (false-alarm corpus: no check may report a violation)" if sid.startswith("R") else
